@@ -55,42 +55,15 @@ def showSel : SelM → String
   | .key s k => s!"K{s}.{k}"
   | .data s d => s!"D{s}.{d}"
 
-/-- a member that refers to the whole text of the annotation it points at -/
-def wholeMember (s : State) : SelM → Bool
-  | .annoff a r t _ =>
-    match (getLive s.anns a).bind AnnM.textsel with
-    | some (pr, pt) => pr == r && s.selRange pr pt == s.selRange r t
-    | none => false
-  | _ => false
-
-/-- `AnnotationStore::subselectors` stores runs of annotation selectors on consecutive annotations, each referring to
-the whole text of its annotation, as one internal ranged selector; the members it yields afterwards report their
-offset in the default mode (begin-aligned both): the mode they were given is not kept. Rendering only: the store
-model keeps the members as they were built. `prev` = (annotation handle of the previous member, was it whole, is a run
-open). -/
-def reportedModes (s : State) : Option (Nat × Bool × Bool) → List SelM → List SelM
-  | _, [] => []
-  | prev, x :: rest =>
-    match x with
-    | .annoff a r t m =>
-      let w := wholeMember s x
-      let joins : Bool := match prev with
-        | some (pa, pw, _) => a == pa + 1 && pw && w
-        | none => false
-      -- does the next member join this one (then this one starts a run and loses its mode as well)
-      let startsRun : Bool := match rest with
-        | (.annoff a2 _ _ _) :: _ => a2 == a + 1 && w && wholeMember s (rest.headD x) && !joins
-        | _ => false
-      let m' := if joins || startsRun then OffsetMode.bb else m
-      -- after a failed join a member can start a new run; inside a run only whole members continue it
-      .annoff a r t m' :: reportedModes s (some (a, w, joins || startsRun)) rest
-    | other => other :: reportedModes s none rest
+/- (`AnnotationStore::subselectors` stores runs of annotation selectors on consecutive annotations, each referring to
+the whole text of its annotation with a begin-aligned offset, as one internal ranged selector; the members it yields
+afterwards report their offset begin-aligned, which is what they were given: the members are shown as built.) -/
 
 def showTarget (s : State) : TargetM → String
   | .simple x => showSel x
   | .complex k l =>
     let c := match k with | .multi => "M" | .comp => "C" | .dir => "X"
-    c ++ "[" ++ ";".intercalate ((reportedModes s none l).map showSel) ++ "]"
+    c ++ "[" ++ ";".intercalate (l.map showSel) ++ "]"
 
 def joinOr (sep : String) (l : List String) : String := if l.isEmpty then "-" else sep.intercalate l
 
